@@ -1,9 +1,10 @@
 (* Client/RespHead.v — a concrete, executable response-head tokenizer for the [hp] parameter of
    Client/ClientCodec.v.  It is NOT a model of httparse: it is a simple grammar that httparse
    treats identically ON THE HEADS THE C17 GENERATOR PRODUCES (checked on the real client for
-   every generated case through the correspondence of the whole exchange).  Its role: (1) the
-   hypotheses on the tokenizer (ClientProofs.HpLaws) are satisfiable - proved in
-   ClientProofs.simple_rhead_laws - so the theorems are not vacuous; (2) Run/RunC17.v runs.
+   every generated case through the correspondence of the whole exchange).  Its role: it makes
+   Run/RunC17.v executable and gives the concrete witnesses of Props/C17.v (F17).  The theorems
+   of C17 about the body ([read_body]) do not depend on the tokenizer at all; the theorem about
+   the head loop (C17_no_interim_as_final) holds for EVERY tokenizer [hp].
 
      head        = status-line *( header-line ) CRLF
      status-line = ("HTTP/1.0" | "HTTP/1.1") SP 3DIGIT [ SP *( HT | %x20-7E ) ] CRLF
